@@ -41,6 +41,17 @@ def main(argv=None):
         return 2
     if args.replay:
         return replay(mod, prop, args.replay)
+    # a check never waits for ever: past the hard limit (far above any measured run: quick <= 5 min, thorough <= 10 min,
+    # escalated searches are time-boxed) the process reports infrastructure trouble and exits 2
+    import threading
+    limit = float(os.environ.get('VERIF_HARD_LIMIT_S') or (2400 if args.tier == 'quick' else 10800))
+
+    def _give_up():
+        print(f'INFRASTRUCTURE-ERROR property={prop} (no result within {int(limit)} s)', file=sys.stderr, flush=True)
+        os._exit(2)
+    timer = threading.Timer(limit, _give_up)
+    timer.daemon = True
+    timer.start()
     try:
         return check(mod, prop, args.tier, seed, args.no_build)
     except Exception:
